@@ -115,6 +115,52 @@ theorem captures_threaded (cs : List (Nat × Nat)) (vs : List Var) :
 theorem handBack_needs_flag_from_copyability :
     handBack [] [⟨0, false, false⟩] ≠ fnOutputs [] [⟨0, false, false⟩] := by decide
 
+/-- **C25 (control qubits handed back, element level)**: for every block and every control item
+    over individual qubits (any number of them), after the block each control variable names
+    exactly the wire that was taken from it, no variable is dropped or duplicated, and the
+    controls come back in the order of the call outputs (last control first). -/
+theorem control_qubits_returned (controls : List (List Nat)) :
+    handBackElems controls = controls.reverse.map (fun vars => vars.map (fun v => (v, v))) ∧
+      ∀ ps, ps ∈ handBackElems controls → ∀ p, p ∈ ps → p.1 = p.2 := by
+  have hz : ∀ vars : List Nat, unpackAssign vars (packCtrl vars) = vars.map (fun v => (v, v)) := by
+    intro vars
+    unfold unpackAssign packCtrl
+    induction vars with
+    | nil => rfl
+    | cons v vs ih => simp [List.zip_cons_cons, ih]
+  constructor
+  · simp [handBackElems, hz]
+  · intro ps hps p hp
+    simp only [handBackElems, List.mem_map, List.mem_reverse] at hps
+    rcases hps with ⟨vars, _, rfl⟩
+    rw [hz] at hp
+    simp only [List.mem_map] at hp
+    rcases hp with ⟨v, _, rfl⟩
+    rfl
+
+/-- handing the unpacked qubits back from the END of the list (seeded change C25/m6) swaps the
+    variables as soon as a control lists two distinct qubits: the first variable ends up naming
+    the last qubit's wire.  For all lists of at least two pairwise distinct variables. -/
+theorem pop_order_permutes (v w : Nat) (rest : List Nat) (hnd : (v :: w :: rest).Nodup) :
+    unpackAssignPop (v :: w :: rest) (packCtrl (v :: w :: rest)) ≠ (v :: w :: rest).map (fun x => (x, x)) := by
+  intro h
+  unfold unpackAssignPop packCtrl at h
+  -- the head pair is (v, last element), and the last element is not v
+  have hne : (w :: rest) ≠ [] := by simp
+  have hlast : (v :: w :: rest).reverse.head? = some ((w :: rest).getLast hne) := by
+    rw [List.head?_reverse]
+    simp [List.getLast?_cons_cons, List.getLast?_eq_some_getLast hne]
+  cases hr : (v :: w :: rest).reverse with
+  | nil => simp at hr
+  | cons x xs =>
+    rw [hr] at h hlast
+    simp only [List.head?_cons, Option.some.injEq] at hlast
+    simp only [List.zip_cons_cons, List.map_cons, List.cons.injEq, Prod.mk.injEq, true_and] at h
+    have hx : x = v := h.1
+    have hmem : (w :: rest).getLast hne ∈ (w :: rest) := List.getLast_mem hne
+    rw [← hlast, hx] at hmem
+    exact (List.nodup_cons.mp hnd).1 hmem
+
 /-- **D17 (the defect, on the pre-fix wiring)**: passing the control arrays in source order
     does not match the function type as soon as two controls differ in arity
     (`with control(a), control(b, c):`). -/
